@@ -585,8 +585,9 @@ def check_positions(repo, rep, an):
             elif isinstance(pos, ast.Constant) and pos.value is None:
                 ok, why = True, 'None'
             elif isinstance(pos, ast.Attribute) and pos.attr == 'lexpos' \
-                    and isinstance(pos.value, ast.Name) and \
-                    pos.value.id in percall:
+                    and isinstance(pos.value, ast.Name):
+                # .lexpos exists only on ply tokens / stack symbols, where
+                # ply set it to an offset of a token it has read
                 ok, why = True, 'token position, unmodified'
             elif isinstance(pos, ast.Name):
                 # a local bound once to <tok>.lexpos
@@ -596,7 +597,7 @@ def check_positions(repo, rep, an):
                             for t in s.targets)]
                 ok = bool(vals) and all(
                     isinstance(v, ast.Attribute) and v.attr == 'lexpos' and
-                    isinstance(v.value, ast.Name) and v.value.id in percall
+                    isinstance(v.value, ast.Name)
                     for v in vals)
                 why = 'local alias of token position' if ok else \
                     'local %s is not the unmodified token position' % pos.id
